@@ -199,6 +199,23 @@ def correspondence(rep, ctx):
                     if not same:
                         fail(desc, f"{cname} {nm}: {b!r} vs direct build {a!r}")
                         break
+    # ---- all-digit names are canonical ids, whatever their length: every nuclide with Z >= 100 (10 digits) and a sample of
+    #      the others incl. isomers, both classes
+    big_z = [nm for nm in view.names if rd.Nuclide(nm).Z >= 100]
+    for nm in big_z + r.sample(view.names, 12):
+        cid = rd.Nuclide(nm).id
+        for cname in ("Inventory", "InventoryHP"):
+            write([[str(cid), "6.25", "mol"], [nm, "0.75", "mol"]])
+            desc = f"read_csv rows=[[{str(cid)!r}, '6.25', 'mol'], [{nm!r}, '0.75', 'mol']] inventory_type={cname!r}"
+            rep.case(("id-row", nm, cname))
+            rep.dist("id-rows")
+            try:
+                got = rd.read_csv(path, inventory_type=cname)
+                want = getattr(rd, cname)({cid: 7.0}, "mol")
+                if list(got.contents) != [nm] or abs(F(got.moles("mol")[nm]) - 7) > Fraction(1, 10**13):
+                    fail(desc, f"gives {got.moles('mol')}, the id {cid} is {nm} (direct build: {want.moles('mol')})")
+            except Exception as e:  # noqa: BLE001
+                fail(desc, f"raised {type(e).__name__}: {e}")
     # ---- the decay_data option: a file read with a NON-default dataset equals the inventory built directly on that dataset —
     #      in contents AND in everything computed from it (masses, activities, decay use the dataset's own constants)
     import synthetic
